@@ -178,6 +178,23 @@ func init() {
 			return Result{}, fmt.Errorf("create32ByteKey not found")
 		}
 		keyDerivation := src(fset4, kd.Body)
+		// every paginated handler must hand the server's token encoder to its query
+		var encoderSites []string
+		for _, rel := range []string{"pkg/server/authorization_models.go", "pkg/server/read.go", "pkg/server/read_changes.go", "pkg/server/stores.go"} {
+			fsetS, fS, err := parseFile(repo, rel)
+			if err != nil {
+				return Result{}, err
+			}
+			ast.Inspect(fS, func(n ast.Node) bool {
+				if ce, ok := n.(*ast.CallExpr); ok {
+					fn := src(fsetS, ce.Fun)
+					if strings.HasPrefix(fn, "commands.With") && strings.HasSuffix(fn, "Encoder") && len(ce.Args) == 1 {
+						encoderSites = append(encoderSites, strings.TrimPrefix(rel, "pkg/server/")+":"+fn+"("+src(fsetS, ce.Args[0])+")")
+					}
+				}
+				return true
+			})
+		}
 
 		b := func(x bool) string {
 			if x {
@@ -201,6 +218,8 @@ func init() {
 		sb.WriteString("def gcmDecryptEmptyPassthrough : Bool := " + b(decEmpty) + "\n")
 		sb.WriteString("def gcmSealPrependsNonce : Bool := " + b(sealNoncePrefix) + "\n")
 		sb.WriteString("def gcmOpenSplitsNonce : Bool := " + b(openSplit) + "\n")
+		sb.WriteString("/-- paginated handlers passing the server's token encoder to their query -/\n")
+		sb.WriteString("def encoderSites : List String := " + leanStrList(encoderSites) + "\n")
 		sb.WriteString("/-- body of create32ByteKey (key derivation from the configured secret) -/\n")
 		sb.WriteString("def keyDerivationBody : String := " + leanStr(keyDerivation) + "\n")
 		sb.WriteString("\nend OpenFGAVerif.Gen.Token\n")
